@@ -8,7 +8,9 @@ CLAIMED = {
     text="TLC enumerates the operation x type-pair x size-class x bit-pattern partition of + - * sqr cubic pow (Gen_C01), the "
          "real library executes every case in every call form, and a TLC trace monitor (Trace_C01) validates each recorded "
          "result against an independent big-integer arithmetic written in TLA+ (BigInt, itself model-checked against TLC's "
-         "native integers); seeded random chains add unbalanced operands up to 70 words.",
+         "native integers); seeded random chains add unbalanced operands up to 70 words. The code's algorithms are transcribed at word level "
+         "and model-checked: IntAddAlg (add_ops.rs), IntMulAlg (simple / Karatsuba / Toom-3 / chunk helper / squaring with every debug "
+         "assertion as an obligation) and MulMemAlg (scratch-memory recurrence against the requirement formulas read from the source).",
     note="Trusted: TLC, the BigNat/BigInt TLA+ library (self-checked on every fresh setup), raw word accessors "
          "as_words/from_words used to move operands across the wire. Bounded: operands <= ~100 words exactly; Toom-3 sizes only in the thorough tier.",
     technique="TLA+ definition-layer spec + TLC-generated cases replayed into the code + TLC trace validation",
